@@ -169,6 +169,7 @@ func C09(p *load.Prog, r *report.Report) {
 		r.Undecided("C09.model", "layout", "", err.Error())
 		return
 	}
+	m.stateGuard(r, "C09", false, true)
 	fn := p.Root.Func("HashToScalar")
 	if fn == nil {
 		r.Undecided("C09.anchor", "HashToScalar", "", "function not found")
@@ -207,6 +208,7 @@ func C08(p *load.Prog, r *report.Report) {
 		r.Undecided("C08.model", "layout", "", err.Error())
 		return
 	}
+	m.stateGuard(r, "C08", true, false)
 	inherit(p, r, "C08", "C11", C11)
 	hashFrame(p, r, "C08", "HashToGroup", "EncodeToGroup")
 	sswu := p.Root.Func("SSWU")
